@@ -136,12 +136,14 @@ func rxGen(rng *lp.Rand, size int) *rx {
 }
 
 func c08(r *lp.Run) {
-	r.SetRule("(1) Convert on random token sequences (escapes cut short, octal/\\x/\\u/\\u{ forms, \\c, unterminated classes and groups, look-around prefixes, '[' inside classes, astral characters) and on printed ASTs, output text compared with the Lean converter model; (2) ogenregex.Compile(p).MatchString(s) for expressions of the semantic fragment (literals incl. line terminators / ECMAScript-only whitespace / astral, ., \\s \\S \\d \\D \\w \\W, [^], [], \\cX, ^ $ \\b \\B, concatenation, alternation, * + ?) — every expression of size ≤ 2 plus random larger ones — on every subject of length ≤ L over a 17-symbol alphabet, compared with the Lean ECMA-262 semantics; atoms on a code-point grid (every code point in thorough); regexp2 (ECMAScript|Unicode) is the second opinion for the failing-input search; (3) fallback: look-around / back-reference / named-group patterns must run on the backtracking engine, never approximated; String() returns the source. non-trivial = distinct (pattern, subject) where the pattern contains a class, an escape or a quantifier")
+	r.SetRule("(1) Convert on random token sequences (escapes cut short, octal/\\x/\\u/\\u{ forms, \\c, unterminated classes and groups, look-around prefixes, '[' inside classes, astral characters) and on printed ASTs, output text compared with the Lean converter model; (2) ogenregex.Compile(p).MatchString(s) for expressions of the semantic fragment (literals incl. line terminators / ECMAScript-only whitespace / astral, ., \\s \\S \\d \\D \\w \\W, [^], [], \\cX, ^ $ \\b \\B, concatenation, alternation, * + ?) — every expression of size ≤ 2 plus random larger ones — on every subject of length ≤ L over a 17-symbol alphabet, compared with the Lean ECMA-262 semantics; atoms on a code-point grid (every code point in thorough); regexp2 (ECMAScript|Unicode) is the second opinion for the failing-input search; (3) fallback: look-around / back-reference / named-group patterns must run on the backtracking engine, never approximated; String() returns the source; (4) engine agreement: patterns of the sub-fragment both engines implement faithfully, forced onto the backtracking engine by a look-around that cannot fail, must answer as their converted form does; (5) generated validators: a regenerated server accepts a string member exactly when ogenregex.Compile(pattern).MatchString does (patterns that look like match-all, line terminators in subjects). non-trivial = distinct (pattern, subject) where the pattern contains a class, an escape or a quantifier")
 	rng := r.Rng.Fork(8)
 	c08Convert(r, rng)
 	c08Semantics(r, rng)
 	c08Atoms(r)
 	c08Fallback(r)
+	c08EngineAgreement(r, r.Rng.Fork(801))
+	c08Generated(r)
 }
 
 func implConvert(p string) string {
@@ -155,8 +157,8 @@ func implConvert(p string) string {
 }
 
 func c08Convert(r *lp.Run, rng *lp.Rand) {
-	toks := []string{"a", "Z", "0", "1", "7", "8", "9", "\\", "(", ")", "[", "]", "^", "$", ".", "*", "+", "?", "{", "}", ",", "|", "-", ":", "=", "!", "<", "x", "u", "c", "b", "B", "d", "s", "S", "w", "f", "n", "v", "k", "p", "é", "\U00020000", "/", "_", " ", "4", "F", "g", "\\d", "\\s", "\\S", "\\b", "\\x4", "\\x41", "\\u00", "\\u0041", "\\u{41}", "\\u{", "\\cA", "\\c1", "\\0", "\\01", "\\12", "\\8", "(?:", "(?=", "(?<", "(?i", "[^", "[]", "[^]", "\\-", "\\/", "\\$", "\\_", "[[", "[:alpha:]", "[a-", "\\u{1F600}", "\\u{110000}", "\\W", "\\D", "[\\s", "[\\S", "[\\b", "\\k<n>", "\\1", "(?<n>", "(?!", "(?<=", "(?<!"}
-	n := r.N(60000, 1500000)
+	toks := []string{"a", "Z", "0", "1", "7", "8", "9", "\\", "(", ")", "[", "]", "^", "$", ".", "*", "+", "?", "{", "}", ",", "|", "-", ":", "=", "!", "<", "x", "u", "c", "b", "B", "d", "s", "S", "w", "f", "n", "v", "k", "p", "é", "\U00020000", "/", "_", " ", "4", "F", "g", "\\d", "\\s", "\\S", "\\b", "\\x4", "\\x41", "\\u00", "\\u0041", "\\u{41}", "\\u{", "\\cA", "\\cP", "\\cp", "\\cO", "\\cQ", "\\cZ", "\\cz", "\\cJ", "\\c1", "\\0", "\\01", "\\12", "\\17", "\\20", "\\21", "\\37", "\\40", "\\77", "\\100", "\\377", "\\400", "\\8", "(?:", "(?=", "(?<", "(?i", "[^", "[]", "[^]", "\\-", "\\/", "\\$", "\\_", "[[", "[:alpha:]", "[a-", "\\u{1F600}", "\\u{110000}", "\\W", "\\D", "[\\s", "[\\S", "[\\b", "\\k<n>", "\\1", "(?<n>", "(?!", "(?<=", "(?<!"}
+	n := r.N(60000, 600000)
 	for i := 0; i < n; i++ {
 		k := 1 + rng.Intn(6)
 		var sb strings.Builder
@@ -186,10 +188,10 @@ func c08Semantics(r *lp.Run, rng *lp.Rand) {
 			exprs = append(exprs, &rx{op: op, a: l})
 		}
 	}
-	for i := 0; i < r.N(300, 4000); i++ {
+	for i := 0; i < r.N(300, 600); i++ {
 		exprs = append(exprs, &rx{op: lp.Pick(rng, []string{"C", "A"}), a: lp.Pick(rng, rxLeaves), b: lp.Pick(rng, rxLeaves)})
 	}
-	for i := 0; i < r.N(400, 8000); i++ {
+	for i := 0; i < r.N(400, 1000); i++ {
 		exprs = append(exprs, rxGen(rng, 3+rng.Intn(4)))
 	}
 	L := r.N(2, 3)
@@ -224,11 +226,12 @@ func c08Semantics(r *lp.Run, rng *lp.Rand) {
 		e.toks(&etoks)
 		var oracle *regexp2.Regexp
 		subs := subjects
-		if ei >= len(rxLeaves)*4 && !r.Thorough() {
-			// larger expressions: a random third of the subjects in the quick tier
+		if ei >= len(rxLeaves)*4 {
+			// larger expressions: a random third (quick, length ≤ 2) / eighth (thorough, length ≤ 3) of the subjects;
+			// leaves and their quantified forms see every subject
 			subs = nil
 			for _, s := range subjects {
-				if rng.Intn(3) == 0 {
+				if rng.Intn(r.N(3, 8)) == 0 {
 					subs = append(subs, s)
 				}
 			}
